@@ -274,6 +274,8 @@ struct WSpec {
     zc: bool,
     ext: bool,
     ks: Vec<u64>,
+    /// The request pending after `ks` is answered with `-err` (`more`: zero-copy error + F_MORE, then the notification).
+    err: Option<(i32, bool)>,
 }
 
 #[derive(Clone, Debug)]
@@ -293,6 +295,7 @@ struct RSpec {
     flags: u32,
     zsel: bool,
     ks: Vec<u64>,
+    err: Option<(i32, bool)>,
 }
 
 fn kvs<'a>(toks: &[&'a str], key: &str) -> Option<&'a str> {
@@ -324,6 +327,24 @@ fn num_list(s: &str) -> Option<Vec<u64>> {
         return Some(Vec::new());
     }
     s.split(',').map(num).collect()
+}
+
+/// `err=-` (or no `err` key) = none, `err=<errno>` or `err=<errno>+` (zero-copy: error with F_MORE + notification).
+fn parse_err(toks: &[&str]) -> Option<Option<(i32, bool)>> {
+    let Some(v) = kvs(toks, "err") else { return Some(None) };
+    if v == "-" {
+        return Some(None);
+    }
+    let (n, more) = match v.strip_suffix('+') {
+        Some(n) => (n, true),
+        None => (v, false),
+    };
+    let e = num(n)?;
+    // EINTR / ECANCELED are retried inside the operation (C09); everything else reaches the composite future
+    if e == 0 || e > 4095 || e == libc::EINTR as u64 || e == libc::ECANCELED as u64 {
+        return None;
+    }
+    Some(Some((e as i32, more)))
 }
 
 fn flag01(s: &str) -> Option<bool> {
@@ -368,6 +389,7 @@ fn parse_w(toks: &[&str]) -> Option<WSpec> {
     let zc = flag01(kvs(toks, "zc")?)?;
     let ext = flag01(kvs(toks, "ext")?)?;
     let ks = num_list(kvs(toks, "ks")?)?;
+    let err = parse_err(toks)?;
     let single = fut == "write_all" || fut == "send_all";
     let tup = parse_shape(kvs(toks, "shape")?, single, bufs.len())?;
     if flags > u32::MAX as u64 || bufs.iter().any(|b| b.0 > MAX_LEN) {
@@ -390,7 +412,7 @@ fn parse_w(toks: &[&str]) -> Option<WSpec> {
     if !single && (bufs.is_empty() || bufs.len() > 8) {
         return None;
     }
-    Some(WSpec { fut, tup, bufs, outer, off: off.unwrap_or(NO_OFFSET), flags: flags as u32, zc, ext, ks })
+    Some(WSpec { fut, tup, bufs, outer, off: off.unwrap_or(NO_OFFSET), flags: flags as u32, zc, ext, ks, err })
 }
 
 fn parse_r(toks: &[&str]) -> Option<RSpec> {
@@ -420,6 +442,7 @@ fn parse_r(toks: &[&str]) -> Option<RSpec> {
     let flags = num(kvs(toks, "flags")?)?;
     let zsel = flag01(kvs(toks, "zsel")?)?;
     let ks = num_list(kvs(toks, "ks")?)?;
+    let err = parse_err(toks)?;
     let single = fut == "read_n" || fut == "recv_n";
     let tup = parse_shape(kvs(toks, "shape")?, single, bufs.len())?;
     if flags > u32::MAX as u64 {
@@ -456,7 +479,7 @@ fn parse_r(toks: &[&str]) -> Option<RSpec> {
     if !single && (bufs.is_empty() || bufs.len() > 8 || bufs.iter().any(|b| matches!(b, RElem::Pool { .. }))) {
         return None;
     }
-    Some(RSpec { fut, tup, bufs, outer, n, off: off.unwrap_or(NO_OFFSET), flags: flags as u32, zsel, ks })
+    Some(RSpec { fut, tup, bufs, outer, n, off: off.unwrap_or(NO_OFFSET), flags: flags as u32, zsel, ks, err })
 }
 
 // ---------------------------------------------------------------------------
@@ -472,6 +495,8 @@ struct Rec {
     /// (length, Some((buffer index, start)) if it lies in one of the caller's buffers)
     iov: Vec<(usize, Option<(usize, usize)>)>,
     res: Option<u32>,
+    /// The kernel answered this request with `-err`.
+    err: Option<i32>,
     /// Bytes accepted (writes) / delivered (reads).
     data: Vec<u8>,
 }
@@ -487,6 +512,7 @@ struct Drive {
     read: bool,
     ks: Vec<u64>,
     ki: usize,
+    err: Option<(i32, bool)>,
     /// Memory of the caller's buffers: (address, extent).
     bases: Vec<(usize, usize)>,
     zsel: bool,
@@ -535,8 +561,8 @@ fn is_data_op(op: u8) -> bool {
 }
 
 impl Drive {
-    fn new(rfd: i32, read: bool, ks: Vec<u64>, bases: Vec<(usize, usize)>, zsel: bool) -> Drive {
-        Drive { rfd, read, ks, ki: 0, bases, zsel, delivered: 0, lines: Vec::new(), recs: Vec::new(), anomalies: Vec::new() }
+    fn new(rfd: i32, read: bool, ks: Vec<u64>, err: Option<(i32, bool)>, bases: Vec<(usize, usize)>, zsel: bool) -> Drive {
+        Drive { rfd, read, ks, ki: 0, err, bases, zsel, delivered: 0, lines: Vec::new(), recs: Vec::new(), anomalies: Vec::new() }
     }
 
     fn decode(&mut self, sqe: &Sqe) -> Rec {
@@ -563,7 +589,7 @@ impl Drive {
                 iov.push((l, hit));
             }
         }
-        Rec { opcode: sqe.opcode, off: sqe.off, op_flags: sqe.op_flags, sel, iov, res: None, data: Vec::new() }
+        Rec { opcode: sqe.opcode, off: sqe.off, op_flags: sqe.op_flags, sel, iov, res: None, err: None, data: Vec::new() }
     }
 
     fn show(rec: &Rec, sqe_len: u32) -> String {
@@ -616,8 +642,36 @@ impl Drive {
             let mut rec = self.decode(&sqe);
             self.lines.push(Drive::show(&rec, sqe.len));
             if self.ki == self.ks.len() {
+                let Some((e, more)) = self.err.take() else {
+                    self.recs.push(rec);
+                    return Outcome::Pending;
+                };
+                // The kernel fails this request. A zero-copy send may report the error with
+                // F_MORE and send the notification afterwards (`more`), or fail in one step.
+                let zc = matches!(sqe.opcode, simk::OP_SEND_ZC | simk::OP_SENDMSG_ZC);
+                let two_step = zc && more;
+                let spec = PostSpec::new(Target::UserData(sqe.user_data), -e, if two_step { simk::CQE_F_MORE } else { 0 });
+                let _ = simk::drain_events();
+                simk::with_ring(self.rfd, |r, ev| r.post(&spec, ev));
+                let _ = simk::drain_events();
+                rec.err = Some(e);
+                self.lines.push(format!("res -{e}"));
                 self.recs.push(rec);
-                return Outcome::Pending;
+                let _ = ring.poll(Some(Duration::ZERO));
+                if two_step {
+                    match util::catch(|| fut.as_mut().poll(&mut cx)) {
+                        Err(msg) => return Outcome::Panic(msg),
+                        Ok(Poll::Ready(r)) => {
+                            self.anomalies.push("ready before the zero-copy notification".into());
+                            return Outcome::Ready(r);
+                        }
+                        Ok(Poll::Pending) => {}
+                    }
+                    let notif = PostSpec::new(Target::UserData(sqe.user_data), 0, simk::CQE_F_NOTIF);
+                    simk::with_ring(self.rfd, |r, ev| r.post(&notif, ev));
+                    let _ = ring.poll(Some(Duration::ZERO));
+                }
+                continue;
             }
             let k = self.ks[self.ki];
             self.ki += 1;
@@ -696,7 +750,10 @@ fn err_name(e: &io::Error) -> String {
     match e.kind() {
         io::ErrorKind::WriteZero => "WriteZero".into(),
         io::ErrorKind::UnexpectedEof => "UnexpectedEof".into(),
-        _ => util::io_err_name(e),
+        _ => match e.raw_os_error() {
+            Some(n) => format!("os{n}"),
+            None => util::io_err_name(e),
+        },
     }
 }
 
@@ -834,6 +891,23 @@ impl CompositeCase {
             overflow = true;
         }
         let last_zero = d.recs.last().is_some_and(|r| r.res == Some(0));
+        // A request the kernel failed: the future must fail with exactly that error, at once.
+        let failed = d.recs.iter().position(|r| r.err.is_some());
+        if let Some(at) = failed {
+            let e = d.recs[at].err.unwrap();
+            if at + 1 != d.recs.len() {
+                self.fail(fut, "continued-after-error", format!("request {at} failed with errno {e} but the future issued another request"));
+            }
+            // `fallback` (op.rs) reports EINVAL as `Unsupported` ("update your kernel"), by design
+            let want = if e == libc::EINVAL { "result err=Unsupported".to_string() } else { format!("result err=os{e}") };
+            if lines.last() != Some(&want) {
+                self.fail(fut, "kernel-error-not-reported", format!("request {at} failed with errno {e}; the future ended with `{}`", lines.last().cloned().unwrap_or_default()));
+            }
+            self.feats.push("kernel-error".into());
+            if at >= 1 {
+                self.feats.push("kernel-error-after-progress".into());
+            }
+        }
         match result {
             "ok" => {
                 if acc != input.len() {
@@ -846,6 +920,7 @@ impl CompositeCase {
                     self.fail(fut, "extract", "extract did not return the caller's buffers".into());
                 }
             }
+            "err" if failed.is_some() => {}
             "err" => {
                 let wz = lines.last().is_some_and(|l| l == "result err=WriteZero");
                 if !(wz && last_zero) {
@@ -964,7 +1039,7 @@ impl CompositeCase {
                 let total_before = bufs.total();
                 let mut ring = self.ring.take().unwrap();
                 let fd = self.fd.take().unwrap();
-                let mut d = Drive::new(self.rfd, false, s.ks.clone(), before.clone(), false);
+                let mut d = Drive::new(self.rfd, false, s.ks.clone(), s.err, before.clone(), false);
                 let out = {
                     let mut fut = $mk(s, &fd, bufs);
                     let out = d.run(&mut ring, fut.as_mut());
@@ -1131,6 +1206,23 @@ impl CompositeCase {
             overflow = true;
         }
         let last_zero = d.recs.last().is_some_and(|r| r.res == Some(0));
+        // A request the kernel failed: the future must fail with exactly that error, at once.
+        let failed = d.recs.iter().position(|r| r.err.is_some());
+        if let Some(at) = failed {
+            let e = d.recs[at].err.unwrap();
+            if at + 1 != d.recs.len() {
+                self.fail(fut, "continued-after-error", format!("request {at} failed with errno {e} but the future issued another request"));
+            }
+            // `fallback` (op.rs) reports EINVAL as `Unsupported` ("update your kernel"), by design
+            let want = if e == libc::EINVAL { "result err=Unsupported".to_string() } else { format!("result err=os{e}") };
+            if lines.last() != Some(&want) {
+                self.fail(fut, "kernel-error-not-reported", format!("request {at} failed with errno {e}; the future ended with `{}`", lines.last().cloned().unwrap_or_default()));
+            }
+            self.feats.push("kernel-error".into());
+            if at >= 1 {
+                self.feats.push("kernel-error-after-progress".into());
+            }
+        }
         match result {
             "ok" => {
                 if acc < s.n {
@@ -1165,6 +1257,7 @@ impl CompositeCase {
                     self.fail(fut, "bytes-order", format!("the returned buffers do not hold their old content followed by the {acc} delivered bytes in arrival order"));
                 }
             }
+            "err" if failed.is_some() => {}
             "err" => {
                 let eof = lines.last().is_some_and(|l| l == "result err=UnexpectedEof");
                 if !(eof && last_zero) {
@@ -1260,7 +1353,7 @@ impl CompositeCase {
                 let bufs = $bufs;
                 let mut ring = self.ring.take().unwrap();
                 let fd = self.fd.take().unwrap();
-                let mut d = Drive::new(self.rfd, true, s.ks.clone(), $bases, s.zsel);
+                let mut d = Drive::new(self.rfd, true, s.ks.clone(), s.err, $bases, s.zsel);
                 let out = {
                     let mut fut = $mk(s, &fd, bufs);
                     let out = d.run(&mut ring, fut.as_mut());
@@ -1483,6 +1576,15 @@ fn gen_script(rng: &mut Rng, total: u64, bounds: &[u64]) -> Vec<u64> {
     ks
 }
 
+/// One in four scripts ends with a kernel error for the request that is then outstanding.
+fn gen_err(rng: &mut Rng) -> String {
+    if !rng.chance(1, 4) {
+        return "-".into();
+    }
+    let e = *rng.pick(&[libc::EIO, libc::EPIPE, libc::ECONNRESET, libc::ENOSPC, libc::EAGAIN, libc::EBADF, libc::EFAULT, libc::ENOBUFS, libc::EINVAL, libc::ENOTCONN]);
+    if rng.chance(1, 2) { format!("{e}+") } else { format!("{e}") }
+}
+
 fn fmt_list(ks: &[u64]) -> String {
     if ks.is_empty() { "-".into() } else { ks.iter().map(|k| k.to_string()).collect::<Vec<_>>().join(",") }
 }
@@ -1561,6 +1663,7 @@ fn gen_w(rng: &mut Rng) -> String {
     }
     let ks = gen_script(rng, total, &bounds);
     let ks = finish_script(rng, ks);
+    let err = gen_err(rng);
     let file = fut.starts_with("write");
     let off = if file { gen_off(rng) } else { "-".into() };
     let flags = if file { 0 } else { gen_flags(rng, &SEND_BITS) };
@@ -1569,12 +1672,13 @@ fn gen_w(rng: &mut Rng) -> String {
     let shape = if single { "one" } else if n >= 2 && rng.chance(1, 2) { "tup" } else { "arr" };
     let bufs: Vec<String> = lens.iter().zip(&lims).map(|(l, m)| match m { Some(m) => format!("{l}/{m}"), None => l.to_string() }).collect();
     format!(
-        "composite w fut={fut} shape={shape} bufs={} outer={} off={off} flags={flags} zc={} ext={} ks={}",
+        "composite w fut={fut} shape={shape} bufs={} outer={} off={off} flags={flags} zc={} ext={} ks={} err={}",
         bufs.join(","),
         outer.map_or("-".into(), |o| o.to_string()),
         zc as u8,
         ext as u8,
-        fmt_list(&ks)
+        fmt_list(&ks),
+        err
     )
 }
 
@@ -1632,16 +1736,18 @@ fn gen_r(rng: &mut Rng) -> String {
     let upto = if rng.chance(1, 2) { n.min(cap) } else { cap };
     let ks = gen_script(rng, upto, &bounds);
     let ks = finish_script(rng, ks);
+    let err = gen_err(rng);
     let file = fut.starts_with("read");
     let off = if file { gen_off(rng) } else { "-".into() };
     let flags = if file { 0 } else { gen_flags(rng, &RECV_BITS) };
     let shape = if single { "one" } else if nb >= 2 && rng.chance(1, 2) { "tup" } else { "arr" };
     format!(
-        "composite r fut={fut} shape={shape} bufs={} outer={} n={n} off={off} flags={flags} zsel={} ks={}",
+        "composite r fut={fut} shape={shape} bufs={} outer={} n={n} off={off} flags={flags} zsel={} ks={} err={}",
         elems.join(","),
         outer.map_or("-".into(), |o| o.to_string()),
         rng.chance(1, 2) as u8,
-        fmt_list(&ks)
+        fmt_list(&ks),
+        err
     )
 }
 
